@@ -97,7 +97,7 @@ pub fn run(ctx: &mut Ctx) {
     for (n, ok) in rsm4::selftest() {
         ctx.selftest(&n, ok);
     }
-    ctx.require(&["openssl_modes", "len_sweep", "ctr_carry", "ctr_wrap", "random_long", "bad_iv_len", "cbc_bad_len", "cbc_empty", "cbc_bad_pad_byte", "cbc_lenient_pad"]);
+    ctx.require(&["openssl_modes", "len_sweep", "ctr_carry", "ctr_wrap", "random_long", "bad_iv_len", "bad_iv_data_len=0", "cbc_bad_len", "cbc_empty", "cbc_bad_pad_byte", "cbc_lenient_pad"]);
     for m in MODES {
         for r in 0..16 {
             let s = format!("{}_len_mod16={}", mode_name(m), r);
@@ -209,16 +209,19 @@ pub fn run(ctx: &mut Ctx) {
             }
             let key: [u8; 16] = prng.arr();
             let iv = prng.bytes(ivlen);
-            let data = prng.bytes(32);
             idx += 1;
+            let datas: Vec<Vec<u8>> = [0usize, 1, 16, 32, 33].iter().map(|&l| prng.bytes(l)).collect();
             if !ctx.mine(idx) {
                 continue;
             }
             let Some(c) = mk(ctx, m, &key) else { continue };
-            let w = json!({"mode": mode_name(m), "key": hex::encode(key), "iv": hex::encode(&iv), "data": hex::encode(&data)});
-            ctx.distinct("badiv", &[&[m as u8], &iv]);
-            must_err(ctx, &format!("{}.encrypt:iv-len!=16", mode_name(m)), "bad_iv_len", w.clone(), || c.encrypt(&data, &iv));
-            must_err(ctx, &format!("{}.decrypt:iv-len!=16", mode_name(m)), "bad_iv_len", w, || c.decrypt(&data, &iv));
+            for data in &datas {
+                let w = json!({"mode": mode_name(m), "key": hex::encode(key), "iv": hex::encode(&iv), "data": hex::encode(data)});
+                ctx.distinct("badiv", &[&[m as u8], &iv, data]);
+                ctx.class(&format!("bad_iv_data_len={}", data.len()));
+                must_err(ctx, &format!("{}.encrypt:iv-len!=16", mode_name(m)), "bad_iv_len", w.clone(), || c.encrypt(data, &iv));
+                must_err(ctx, &format!("{}.decrypt:iv-len!=16", mode_name(m)), "bad_iv_len", w, || c.decrypt(data, &iv));
+            }
         }
     }
     // CBC decrypt: lengths that are not a positive multiple of 16
